@@ -145,10 +145,10 @@ Definition tick_woy (md : mode) (c : Z * Z) : Z * Z :=
   let '(y, w) := c in
   let c1 := loop (fun c => snd c <? 1)
                  (fun c => (fst c - 1, snd c + get_weeks_in_year md (fst c - 1)))
-                 (Z.abs w / 52 + 2) c in
+                 (Z.abs w / 51 + 2) c in
   loop (fun c => get_weeks_in_year md (fst c) <? snd c)
        (fun c => (fst c + 1, snd c - get_weeks_in_year md (fst c)))
-       (Z.abs (snd c1) / 52 + 2) c1.
+       (Z.abs (snd c1) / 51 + 2) c1.
 
 Definition add_days_raw (d : date) (n : Z) : date :=
   match d with
